@@ -232,6 +232,26 @@ where
         // --------------
         lhs.κ = -(rhs.κ + variables.κ * lhs.τ) / variables.τ;
 
+        #[cfg(clarabel_verif)]
+        if crate::verif::step_log() {
+            use crate::verif::{f64_of, vec_of};
+            crate::verif::emit(crate::verif::Event {
+                name: "StepSolved",
+                i: vec![matches!(step_direction, StepDirection::Combined) as i64],
+                f: vec![
+                    f64_of(lhs.τ), f64_of(lhs.κ), f64_of(rhs.τ), f64_of(rhs.κ),
+                    f64_of(variables.τ), f64_of(variables.κ),
+                ],
+                v: vec![
+                    vec_of(&self.x1), vec_of(&self.z1), vec_of(&self.x2), vec_of(&self.z2),
+                    vec_of(&lhs.x), vec_of(&lhs.z), vec_of(&lhs.s),
+                    vec_of(&variables.x), vec_of(&variables.z), vec_of(&variables.s),
+                    vec_of(&rhs.x), vec_of(&rhs.z),
+                ],
+                ..Default::default()
+            });
+        }
+
         // we don't check the validity of anything
         // after the KKT solve, so just return is_success
         // without further validation
